@@ -102,7 +102,7 @@ impl EmmyLuaEmitter {
                     self.output,
                     "---| \"{}\" # {}",
                     escape_lua_string(value),
-                    desc
+                    single_line(desc)
                 );
             }
             None => {
@@ -115,7 +115,7 @@ impl EmmyLuaEmitter {
     pub fn write_alias_type_variant(&mut self, ty: &str, description: Option<&str>) {
         match description {
             Some(desc) => {
-                let _ = writeln!(self.output, "---| {} # {}", ty, desc);
+                let _ = writeln!(self.output, "---| {} # {}", ty, single_line(desc));
             }
             None => {
                 let _ = writeln!(self.output, "---| {}", ty);
@@ -151,6 +151,15 @@ pub(crate) fn escape_lua_string(text: &str) -> String {
 }
 
 /// Check if a field name needs bracket notation (contains special characters).
+/// A `# description` after an alias variant has to stay on the variant's line.
+fn single_line(text: &str) -> String {
+    text.lines()
+        .map(str::trim)
+        .filter(|line| !line.is_empty())
+        .collect::<Vec<_>>()
+        .join(" ")
+}
+
 fn needs_bracket_notation(name: &str) -> bool {
     if name.is_empty() {
         return true;
